@@ -31,7 +31,9 @@ CONSTANT Dev
 (* ov : explicit values (a function on a finite set of addresses), def the *)
 (* value of every other populated cell; fail = TRUE models a datastore     *)
 (* whose accesses raise.                                                   *)
-Pop(b, a) == IF b.kind = "seq" THEN a >= b.start /\ a < b.start + b.size ELSE a \in b.keys
+Pop(b, a) == IF b.kind = "seq"
+             THEN a >= b.start /\ (IF "SeqEndInclusive" \in Dev THEN a <= b.start + b.size ELSE a < b.start + b.size)
+             ELSE a \in b.keys
 Val(b, a) == IF a \in DOMAIN b.ov THEN b.ov[a] ELSE b.def
 RangeOK(b, a, n) == n >= 1 /\ \A i \in 0..(n-1) : Pop(b, a + i)
 GetVals(b, a, n) == [i \in 1..n |-> Val(b, a + i - 1)]
